@@ -847,3 +847,26 @@ func TestC18AlertsAPI(t *testing.T) {
 		Exec: c18ExecBucket,
 	})
 }
+
+// C13Limited: "every valid alert of a batch is stored … GET /api/v2/alerts returns exactly the alerts whose end time has
+// not passed, with the merged times" when a per-alert-name limit is configured: the C18AlertsAPI histories judged for
+// what C13 promises about alerts the limit has room for.
+func TestC13Limited(t *testing.T) {
+	pbt.Run(t, pbt.Spec[c18BucketScenario]{
+		Property: "C13", Name: "C13Limited",
+		Rule: "the histories of C18AlertsAPI (POST /api/v2/alerts under --alerts.per-alertname-limit 1-4: submissions of up to N+3 label sets of two alert names with future / past / omitted ends, bursts of several new alerts in one POST, advances, provider GC). Judged here: a valid alert is stored whenever the limit has room for it (fewer than N unexpired alerts of its name are admitted, or it is a re-send of an admitted one), an admitted unexpired alert stays listed with the end of its last accepted submission, and a POST of valid alerts never fails (kinds refused-with-room, resend-refused, silent-refusal, evicted-unexpired, end-changed, submission-failed). Non-trivial: as C18AlertsAPI.",
+		Gen:  c18GenBucket([]string{"api"}),
+		Exec: func(sc c18BucketScenario) pbt.Result {
+			res := c18ExecBucket(sc)
+			kept := res.Violations[:0]
+			for _, v := range res.Violations {
+				switch v.Kind {
+				case "refused-with-room", "resend-refused", "silent-refusal", "evicted-unexpired", "end-changed", "submission-failed", "harness":
+					kept = append(kept, v)
+				}
+			}
+			res.Violations = kept
+			return res
+		},
+	})
+}
